@@ -124,6 +124,7 @@ fn dispatch(args: &[String]) -> i32 {
         Some("steplog") => cmd_steplog(&args[2..]),
         Some("seqscan") => cmd_seqscan(&args[2..]),
         Some("batchreplay") => cmd_batchreplay(&args[2..]),
+        Some("batchdigest") => cmd_batchdigest(&args[2..]),
         _ => {
             eprintln!("usage: ixsim run|replay|digest ...");
             2
@@ -476,6 +477,23 @@ fn cmd_seqscan(args: &[String]) -> i32 {
         }
     }
     println!("SEQ-NONE");
+    0
+}
+
+/// Execute the listed generated runs one after the other on this thread and print the event-log
+/// digest of the last one (buildmatrix fallback for differences that depend on process state).
+fn cmd_batchdigest(args: &[String]) -> i32 {
+    let prop = arg(args, "--prop").unwrap_or("C17").to_string();
+    let seed: u64 = arg(args, "--seed").and_then(|s| s.parse().ok()).unwrap_or(1);
+    let runs: Vec<u64> = arg(args, "--runs").unwrap_or("").split(',').filter_map(|s| s.parse().ok()).collect();
+    let mut last = 0u64;
+    let mut found = String::new();
+    for idx in &runs {
+        let (_s, _g, out) = run::run_generated(&prop, seed, *idx, None);
+        last = out.digest;
+        found = out.found.map(|f| f.viol.kind.to_string()).unwrap_or_default();
+    }
+    println!("BATCHDIGEST {:016x} {}", last, found);
     0
 }
 
